@@ -53,6 +53,7 @@ DefStream ==
      inAfterRst |-> FALSE,  \* a DATA/HEADERS frame of the peer was handed to E after E's RST_STREAM (it raced with it)
      wantBeforeOpen |-> FALSE, \* the application reset the stream before its HEADERS were on the wire
      peerBad |-> FALSE,     \* the peer sent stream frames after its own RST_STREAM (its violation; E may react)
+     hdrsIn |-> 0,          \* HEADERS frames received on this stream
      inSince |-> 0, inNeed |-> 2]  \* frames handed to E since the cause of a reset (the application's call, else the stream's
                             \* first frame); >= inNeed of them means some raced with E's RST_STREAM still sitting in its codec
 
@@ -61,6 +62,7 @@ Init(role, cfg) ==
     [role |-> role, cfg |-> cfg,
      dead |-> FALSE, tainted |-> FALSE, ended |-> FALSE,
      err |-> FALSE,          \* the connection failed (fault, error GOAWAY either way) as opposed to a clean close
+     killed |-> FALSE,       \* the transport failed or the application dropped / shut down the connection
      owed |-> <<>>, pa |-> DefaultSettings,
      sentSet |-> <<>>, la |-> DefaultSettings, laMaxC |-> -1, advMaxcMin |-> -1,
      pongs |-> <<>>,
@@ -72,6 +74,10 @@ Init(role, cfg) ==
      maxTarget |-> Max(65535, cfg.conn_win),
      goOut |-> -1, goOutN |-> 0, goIn |-> -1, goInBound |-> FALSE, goInCode |-> 0,
      wblocked |-> FALSE,
+     hdrIn |-> 0,            \* stream whose received header block awaits CONTINUATION
+     mustConn |-> FALSE,     \* a received frame is a connection error (RFC 9113): E owes a GOAWAY with an error code
+     mustStream |-> {},      \* streams on which a received frame is a stream error: E owes at least RST_STREAM
+     illegalSeen |-> FALSE,
      v |-> <<>>, hits |-> EmptyMap]
 
 S(m, s) == Get(m.st, s, DefStream)
@@ -298,8 +304,20 @@ ApplyOut(m, f) ==
         m4 == IF ty = "HEADERS" /\ S(m3, s).o = "idle" THEN SetS(m3, s, [S(m3, s) EXCEPT !.o = "open"]) ELSE m3
     IN m4
 
+\* E wrote a GOAWAY with an error code although every frame it received was legal and nothing failed locally
+OutPenalty(m, f, l) ==
+    IF f.ty = "GOAWAY" /\ (f.ch # 0 \/ f.cl # 0)
+    THEN IF m.illegalSeen \/ m.tainted \/ m.dead \/ m.ended \/ (f.ch = 0 /\ f.cl = ENHANCE_YOUR_CALM) THEN m
+         ELSE Viol(Hit(m, "C09.legal_not_penalised"), "C09.legal_not_penalised", l, 0,
+                   IF f.ch = 0 /\ f.cl = PROTOCOL_ERROR /\ m.role = "s"
+                      /\ (\E s \in DOMAIN m.st : ~LocalInit(m.role, s) /\ m.st[s].rstOut > 0 /\ m.st[s].hdrsIn >= 2)
+                   THEN "trailers_raced_with_reset_of_a_stream_the_server_forgot"
+                   ELSE <<"GOAWAY", f.cl>>)
+    ELSE IF f.ty = "GOAWAY" THEN Hit(m, "C09.legal_not_penalised")
+    ELSE m
+
 StepOut(m, f, l) ==
-    LET a == OutLife(m, f, l)
+    LET a == OutLife(OutPenalty(m, f, l), f, l)
         c == OutSize(OutCredit(OutConcurrency(OutAfterGoAway(OutAfterUserReset(a, f, l), f, l), f, l), f, l), f, l)
         d == OutAcks(c, f, l)
         e == OutRecvCredit(d, f, l)
@@ -310,12 +328,74 @@ StepOut(m, f, l) ==
         k == ApplyOut(h, f)
     IN IF isHdrBlockEnd THEN ApplyOutHeadersDone(k, f) ELSE k
 
+\* ==== C09: reference classification of the PEER's frames (written from RFC 9113 4-6) ==========
+\* "legal" | "conn" (connection error) | "stream" (stream error on f.sid). Frames that race with E's own RST_STREAM
+\* (not yet seen by the peer) are legal; so are PRIORITY anywhere, WINDOW_UPDATE / RST_STREAM on closed streams,
+\* unknown frame types and settings, padding.
+PeerIdle(m, s) == IF LocalInit(m.role, s) THEN s > m.maxLocal /\ ~S(m, s).resL /\ S(m, s).o = "idle"   \* (idle until its HEADERS are on the wire)
+                  ELSE s > m.maxPeer /\ ~S(m, s).resR
+Classify(m, f) ==
+    LET s == f.sid
+        x == S(m, s)
+        ty == f.ty
+    IN
+    IF m.hdrIn # 0 /\ (ty # "CONTINUATION" \/ s # m.hdrIn) THEN "conn"
+    ELSE IF f.bad = "len" THEN (IF ty = "PRIORITY" /\ s # 0 THEN "stream" ELSE "conn")
+    ELSE IF f.bad \in {"pad", "val", "valfc", "cont", "short", "prio", "oversize"} THEN "conn"
+    ELSE IF ty \in ConnFrameTypes /\ s # 0 THEN "conn"
+    ELSE IF ty \in StreamFrameTypes /\ s = 0 THEN "conn"
+    ELSE IF f.bad = "selfdep" THEN "stream"
+    ELSE IF ty = "PRIORITY" \/ ty = "UNKNOWN" THEN "legal"
+    ELSE IF ty = "CONTINUATION" THEN (IF m.hdrIn = s THEN "legal" ELSE "conn")
+    ELSE IF ty = "GOAWAY" /\ m.goIn >= 0 /\ f.last > m.goIn THEN "conn"              \* last-stream-id must not increase
+    ELSE IF ty = "PUSH_PROMISE" /\ m.role = "s" THEN "conn"
+    ELSE IF ty = "PUSH_PROMISE" /\ (f.prom % 2 = 1 \/ f.prom = 0 \/ f.prom <= m.maxPeer) THEN "conn"   \* promised id must be new, even, increasing
+    ELSE IF ty = "PUSH_PROMISE" /\ m.la.push = 0 /\ m.sentSet = <<>> THEN "conn"                   \* push disabled and acknowledged
+    ELSE IF ty = "SETTINGS" /\ f.ack /\ m.sentSet = <<>> THEN "conn"
+    ELSE IF ty = "WINDOW_UPDATE" /\ f.inc = 0 THEN (IF s = 0 THEN "conn" ELSE IF PeerIdle(m, s) THEN "conn" ELSE "stream")
+    ELSE IF ty = "WINDOW_UPDATE" /\ s = 0 /\ Exceeds(Max(m.cw, 0), f.inc) THEN "conn"
+    ELSE IF s # 0 /\ ty \in {"DATA", "RST_STREAM", "WINDOW_UPDATE"} /\ PeerIdle(m, s) THEN "conn"
+    ELSE IF ty = "WINDOW_UPDATE" /\ s # 0 /\ x.o \in {"open"} /\ Exceeds(Max(SatAdd(m.pa.iws, x.sw), 0), f.inc) THEN "stream"
+    ELSE IF ty = "HEADERS" /\ ~LocalInit(m.role, s) /\ m.role = "s" /\ s % 2 = 0 THEN "conn"
+    ELSE IF ty = "HEADERS" /\ ~LocalInit(m.role, s) /\ m.role = "c" /\ ~x.resR THEN "conn"       \* a server opens streams only by PUSH_PROMISE
+    ELSE IF ty = "HEADERS" /\ LocalInit(m.role, s) /\ PeerIdle(m, s) THEN "conn"
+    ELSE IF ty = "HEADERS" /\ ~LocalInit(m.role, s) /\ s < m.maxPeer /\ x.i = "idle" /\ ~x.resR THEN "conn"  \* skipped id = closed
+    ELSE IF x.rstOut > 0 THEN "legal"                                                   \* races with E's reset
+    ELSE IF ty = "DATA" /\ x.i \in {"es", "rst"} THEN "stream"
+    ELSE IF ty = "DATA" /\ x.i = "idle" THEN "conn"
+    ELSE IF ty = "HEADERS" /\ x.i \in {"es", "rst"} THEN "stream"
+    ELSE IF f.hb /\ ~f.hdr.ok THEN "conn"                                               \* header compression failure
+    ELSE "legal"
+
+NoteIn(m, f, l) ==
+    LET c == IF m.mustConn \/ m.dead THEN "legal" ELSE Classify(m, f)   \* nothing is judged after the first connection error
+        m1 == IF c = "conn" THEN [Hit(m, "C09.conn_error") EXCEPT !.mustConn = TRUE, !.illegalSeen = TRUE, !.tainted = TRUE]
+              ELSE IF c = "stream" THEN [Hit(m, "C09.stream_error") EXCEPT !.mustStream = m.mustStream \cup {f.sid}, !.illegalSeen = TRUE]
+              ELSE m
+        m2 == IF f.ty \in {"HEADERS", "PUSH_PROMISE"} /\ ~f.eh /\ f.bad = "" THEN [m1 EXCEPT !.hdrIn = f.sid]
+              ELSE IF f.ty = "CONTINUATION" /\ f.eh THEN [m1 EXCEPT !.hdrIn = 0]
+              ELSE m1
+    IN m2
+
+\* at the final quiescence: the reactions the RFC requires have happened
+StepQf(m, e, l) ==
+    IF e.wblocked[m.role] THEN m
+    ELSE
+    LET errGoAway == m.goOutN > 0 /\ m.err
+        m1 == IF m.mustConn /\ ~m.killed THEN Check(m, "C09.conn_error", errGoAway, l, 0, "connection error of the peer not answered by GOAWAY") ELSE m
+        unanswered == {s \in m.mustStream : S(m, s).rstOut = 0}
+        m2 == IF m.mustStream # {} /\ ~m.mustConn /\ ~m.killed
+              THEN Check(m1, "C09.stream_error", unanswered = {} \/ errGoAway, l, 0, unanswered)
+              ELSE m1
+    IN m2
+
 \* ==== in frames: permissions at once, restrictions queued =========================
 
 StepIn(m, f, l) ==
     LET s  == f.sid
         x0 == S(m, s)
         x  == [x0 EXCEPT !.inAny = TRUE, !.inSince = x0.inSince + 1,
+                         !.hdrsIn = x0.hdrsIn + (IF f.ty = "HEADERS" THEN 1 ELSE 0),
                          !.peerBad = x0.peerBad \/ (x0.i = "rst" /\ f.ty \in {"DATA", "HEADERS", "CONTINUATION", "PUSH_PROMISE"}),
                          !.inAfterRst = x0.inAfterRst \/ (x0.rstOut > 0 /\ f.ty \in {"DATA", "HEADERS", "CONTINUATION", "WINDOW_UPDATE"})]
         ty == f.ty
@@ -431,9 +511,9 @@ StepApi(m, e, l) ==
     ELSE IF c = "set_initial_window" /\ e.res = "ok"
     THEN Check(m, "C14.local_settings_pending", m.sentSet = <<>>, l, 0, "second local SETTINGS accepted while one is unacknowledged")
     ELSE IF c = "conn_poll" /\ e.res \in {"ok", "err"} THEN [m EXCEPT !.ended = TRUE, !.err = m.err \/ e.res = "err"]
-    ELSE IF c = "conn_drop" THEN [m EXCEPT !.ended = TRUE, !.err = TRUE]
-    ELSE IF c = "graceful_shutdown" THEN [m EXCEPT !.dead = TRUE]
-    ELSE IF c \in {"abrupt_shutdown", "conn_drop"} THEN [m EXCEPT !.dead = TRUE, !.err = TRUE]
+    ELSE IF c = "conn_drop" THEN [m EXCEPT !.ended = TRUE, !.err = TRUE, !.killed = TRUE]
+    ELSE IF c = "graceful_shutdown" THEN [m EXCEPT !.dead = TRUE, !.killed = TRUE]
+    ELSE IF c \in {"abrupt_shutdown", "conn_drop"} THEN [m EXCEPT !.dead = TRUE, !.err = TRUE, !.killed = TRUE]
     ELSE IF c = "conn_poll" /\ e.res = "err" THEN [m EXCEPT !.ended = TRUE, !.err = TRUE]
     ELSE m
 
@@ -511,13 +591,14 @@ MarkOverLimit(m, f) ==
 
 Step(m, e, l) ==
     IF e.t = "out" THEN StepOut(m, e.f, l)
-    ELSE IF e.t = "in" THEN StepInBlockEnd(MarkZeroed(StepIn(MarkOverLimit(m, e.f), e.f, l), e.f), e.f)
-    ELSE IF e.t = "rd" THEN (IF e.n = 0 \/ e.n = -2 THEN [StepRd(m) EXCEPT !.dead = TRUE, !.err = m.err \/ e.n = -2] ELSE StepRd(m))
+    ELSE IF e.t = "in" THEN StepInBlockEnd(MarkZeroed(StepIn(MarkOverLimit(NoteIn(m, e.f, l), e.f), e.f, l), e.f), e.f)
+    ELSE IF e.t = "qf" THEN StepQf(m, e, l)
+    ELSE IF e.t = "rd" THEN (IF e.n = 0 \/ e.n = -2 THEN [StepRd(m) EXCEPT !.dead = TRUE, !.err = m.err \/ e.n = -2, !.killed = TRUE] ELSE StepRd(m))
     ELSE IF e.t = "fl" THEN (IF e.ok THEN StepFl(m) ELSE m)
-    ELSE IF e.t = "wr" THEN (IF e.n = -2 \/ e.n = 0 THEN [m EXCEPT !.dead = TRUE, !.err = TRUE] ELSE m)
+    ELSE IF e.t = "wr" THEN (IF e.n = -2 \/ e.n = 0 THEN [m EXCEPT !.dead = TRUE, !.err = TRUE, !.killed = TRUE] ELSE m)
     ELSE IF e.t = "sd" THEN [m EXCEPT !.dead = TRUE]
     ELSE IF e.t = "api" THEN StepApi(m, e, l)
-    ELSE IF e.t = "fault" THEN [m EXCEPT !.dead = TRUE, !.err = TRUE]
+    ELSE IF e.t = "fault" THEN [m EXCEPT !.dead = TRUE, !.err = TRUE, !.killed = TRUE]
     ELSE IF e.t = "panic" THEN [m EXCEPT !.dead = TRUE, !.err = TRUE]
     ELSE IF e.t = "q" THEN StepQ(m, e, l)
     ELSE m
